@@ -107,7 +107,9 @@ class Task(object):
             self.duration = self.calculate_runtime(machine)
         total_duration = self._calc_task_delay()
         if total_duration < 1:
-            yield env.timeout(1)
+            # A task shorter than one timestep still occupies exactly one
+            # (aft = now + 1 below), like a task of duration 1.
+            yield env.timeout(0)
         else:
             yield env.timeout(total_duration - 1)
 
